@@ -83,6 +83,12 @@ def corpus_packets() -> List[Tuple[str, str, List[Tuple[int, bytes]], str]]:
          'host key rotation listing the trusted key twice (F56)'),
         ('post-auth', 'client', [(80, St(b'hostkeys-00@openssh.com') + b'\x00' + St(pair.host_key().public_data) + b'\x00\x00')],
          'host key rotation ending inside a string length'),
+        ('post-auth', 'server', [(98, U(0) + St(b'auth-agent-req@openssh.com') + b'\x01')] +
+         [(98, U(0) + St(b'env') + b'\x01' + St(b'A') + St(b'b'))] * 700,
+         '700 channel requests queued behind one that is answered asynchronously (F60)'),
+        ('post-auth', 'client', [(80, St(b'hostkeys-00@openssh.com') + b'\x00' + St(pair.host_key().public_data))] +
+         [(80, St(b'no-such-request@x') + b'\x00')] * 700,
+         '700 global requests queued behind the host key rotation request (F60)'),
         ('post-auth', 'client', [(80, St(b'hostkeys-00@openssh.com') + b'\x01' +
                                   St(St(b'ssh-ed25519') + St(bytes(32))) * 2)],
          'host key rotation with two unknown keys (prove request follows)'),
@@ -96,6 +102,9 @@ def corpus_streams() -> List[Tuple[str, str, bytes, str]]:
         ('in-kex', 'server', struct.pack('>I', 0) + bytes(12), 'packet length 0 (negative remainder, F12)'),
         ('pre-kex', 'server', struct.pack('>I', 0xffffffff) + bytes(64), 'packet length 2^32-1 (stall)'),
         ('pre-kex', 'server', C.frame(b'\x02' + packetmod.String(b'')) * 3000, '3000 minimal IGNORE packets in one chunk'),
+        ('start', 'server', b'SSH-2.0-caf\xc3\xa9\r\n', 'identification line with non-ASCII software version (F59)'),
+        ('start', 'client', b'SSH-2.0-caf\xc3\xa9\r\n', 'identification line with non-ASCII software version (F59)'),
+        ('start', 'client', b'hello\xff\r\nSSH-2.0-\x80\r\n', 'non-ASCII banner line, then non-ASCII version'),
     ]
 
 
